@@ -12,6 +12,9 @@ import (
 // Concrete operands run the real source.
 func init() {
 	extraIntrinsics = append(extraIntrinsics, func(in *Interp, fn *ssa.Function, name string, args []V) (V, bool) {
+		if in.spec != nil && in.spec.LenAsSum {
+			return nil, false // this harness was tuned with the sum model of intrinsics_bits_a.go
+		}
 		var w int
 		switch name {
 		case "math/bits.Len64", "math/bits.Len":
